@@ -167,13 +167,15 @@ def evaluate_batch(batch, rng, static_only):
             if not corr_ok:
                 # after a break at an interrupted lookup: keep evaluating the oracles on the lookups that follow
                 predicted[0] = False
-                stop_after = op[0] == "reg" or j > broke_at + 8
+                stop_after = op[0] == "reg" or j > broke_at + 12
             elif ma != bb:
                 out["corr"].append({"layer": "D", "op_index": j, "op": op, "model": ma, "impl": b, "scenario": desc})
                 corr_ok = False
                 broke_at = j
                 predicted[0] = False
-                stop_after = op[0] != "cut"
+                # the oracles look at the real code (and at the specification, which does not depend on the caches):
+                # keep evaluating them on the lookups that follow, the failing input is often a later one
+                stop_after = False
                 if op[0] == "reg":
                     break
             if op[0] == "cut":
